@@ -7,6 +7,10 @@ CLAIMED = {
     text="Contracts on UserFunction/DomainUserFunction executed symbolically on the real source by tpv; every postcondition/frame/exception obligation discharged by z3 for arbitrary argument VALUES. Signature shapes are enumerated (<= 4 declared parameters) and those obligations are reported as bounded, not proved; the unbounded ones (Points binding for any row count, DomainUserFunction for any row count) are proved.",
     note="A2 python semantics of the tpv interpreter, A3 inspect.getfullargspec/copy.deepcopy models, A8 user functions are functions, A9 solvers",
     tech="contract-based deductive verification: VCs generated from the AST of the real source by a symbolic interpreter, discharged by z3/cvc5"),
+ "C16": dict(cat="proof", sec="DESIGN 4/C16",
+    text="Contracts on PointsDataset / DeepONetDataset / DeepONetDataset_Unique with symbolic data-set sizes, batch sizes and batch index: row-provenance postconditions on __getitem__ (pairing, also through shuffles), batch-size bound, __len__ characterisation and coverage lemmas with ghost witnesses, all discharged by z3 (nonlinear integer arithmetic with explicit lemmas). The coverage defect of DeepONetDataset is exhibited on concrete instances (bounded, known finding F17).",
+    note="A2, A3 (torch indexing/cat/randperm, np.lcm/ceil models), A5 DataLoader(batch_size=None) yields ds[0..len-1] once each, A9. DataCondition.forward aggregation is not yet under contract.",
+    tech="contract-based deductive verification: VCs generated from the AST of the real source by a symbolic interpreter, discharged by z3/cvc5"),
 }
 NA = {
  "C19": "restore fidelity is a property of Lightning's checkpoint / torch.save machinery, the file system and process restarts; no contract on a repo function expresses it (DESIGN 4/C19)",
